@@ -302,6 +302,9 @@ class Check:
         for e in self.engine_errors:
             print("ENGINE-ERROR %s" % e)
 
+        slow = sorted(((r.get("time", 0), n, r.get("backend")) for n, r in results.items()), reverse=True)[:4]
+        if slow and slow[0][0] > 2.0:
+            print("slowest: " + "; ".join("%s %.1fs %s" % (n, t, b) for t, n, b in slow))
         total = n_expected - len(known_hits)
         wall = time.time() - self.t0
         fn_list = {k: sorted(v) for k, v in sorted(self.functions.items())}
